@@ -11,6 +11,7 @@ RULE = ("Hypothesis-generated full configurations (crop x soil x weather with st
         "day is one evaluation of the ledger equation and of the carry-over relation. A configuration is non-trivial when "
         "the run has >=1 day with Runoff>0 or DeepPerc>0 and >=1 day with Es+Tr>0; distinct = distinct configuration hash.")
 ASSUMPTIONS = [
+    "a run whose initial profile lies above saturation or below air-dry in some compartment (possible when depth points of one layer are extended into a layer with other hydraulic properties) is outside the domain of valid configurations: counted under the label start_outside_airdry_saturation, not evaluated",
     "storage before a step is read from the model state (m._init_cond.th / surface_storage) between public run_model(num_steps=1) calls",
     "end-of-day storage is read from the water_storage / water_flux rows (public getters)",
     "tolerance 1e-6 mm; on days with reported CR>0 widened by 0.05 mm per metre of profile (documented CR rounding)",
@@ -29,7 +30,7 @@ def strategy(tier):
 def evaluate(cfg):
     tr, res = observe(cfg, capture=())
     res.sample = base_sample(cfg, tr)
-    if tr.n == 0:
+    if tr.n == 0 or not tr.start_ok:
         return res
     idx, n = rows(tr)
     if n == 0:
